@@ -259,6 +259,9 @@ MUTANTS = [
  ("c04-observation-bank-key-unchecked", M+"state/marginfi_account.rs",
   "                check_eq!(\n                    balance.bank_pk,\n                    *bank_ai.key,\n                    MarginfiError::InvalidBankAccount\n                );",
   "                let _ = balance.bank_pk;", ["C04", "C08", "C05", "C07", "C10"]),
+ ("c12-force-complete-without-sunset", M+"instructions/marginfi_group/configure_bank_lite.rs",
+  "    if bank.get_flag(TOKENLESS_REPAYMENTS_ALLOWED) {\n        bank.update_flag(true, TOKENLESS_REPAYMENTS_COMPLETE);\n    }",
+  "    bank.update_flag(true, TOKENLESS_REPAYMENTS_COMPLETE);", ["C12"]),
 ]
 
 def sh(cmd, **kw):
